@@ -179,6 +179,7 @@ class SBool(Sym):
         return SCplx(z3.If(s.t, z3.RealVal(1), z3.RealVal(0)), z3.RealVal(0))
     def __bool__(s): return decide(s.t)
     def __invert__(s): return SBool(z3.Not(s.t))
+    def conjugate(s): return s
     def __and__(s, o): return SBool(z3.And(s.t, lift(o, 'b').t))
     __rand__ = __and__
     def __or__(s, o): return SBool(z3.Or(s.t, lift(o, 'b').t))
@@ -218,6 +219,7 @@ class SInt(Sym):
             return SInt(r)
         raise Unsupported('int pow symbolic exponent')
     def __abs__(s): return SInt(z3.If(s.t >= 0, s.t, -s.t))
+    def conjugate(s): return s
     def __index__(s): return concretize_int(s.t)
     __int__ = __index__
     def __bool__(s): return decide(s.t != 0)
@@ -327,6 +329,8 @@ for _n, _d in dict(sin=None, cos=None, tan=None, exp=None, sinh=None, cosh=None,
                    arctanh=lambda x: z3.And(x > -1, x < 1), log2=lambda x: x > 0, log10=lambda x: x > 0).items():
     setattr(SReal, _n, _unary(_n, _d))
 SReal.sqrt = lambda s: s._pow(lift(.5))
+SReal.log2 = lambda s: SReal.log(s) / SReal.log(lift(2.))
+SReal.log10 = lambda s: SReal.log(s) / SReal.log(lift(10.))
 SReal.conjugate = lambda s: s
 SReal.reciprocal = lambda s: lift(1.)._div(s)
 
@@ -349,6 +353,17 @@ class SCplx(Sym):
     def _eq(a, b): return SBool(z3.And(a.re == b.re, a.im == b.im))
     def conjugate(s): return SCplx(s.re, -s.im)
     def __abs__(s): return SReal(s.re * s.re + s.im * s.im)._pow(lift(.5))
+    def _pow(a, b):
+        bt = (z3.simplify(b.re), z3.simplify(b.im))
+        if z3.is_rational_value(bt[0]) and z3.is_rational_value(bt[1]) and bt[1].as_fraction() == 0 and bt[0].as_fraction().denominator == 1 and 0 <= bt[0].as_fraction().numerator <= 6:
+            r = SCplx(z3.RealVal(1), z3.RealVal(0))
+            for _ in range(bt[0].as_fraction().numerator): r = r._mul(a)
+            return r
+        raise Unsupported('complex power')
+    def __getattr__(s, name):
+        if name in ('sin', 'cos', 'tan', 'exp', 'log', 'sinh', 'cosh', 'tanh', 'arcsin', 'arccos', 'arctan', 'arctanh', 'log2', 'log10', 'sqrt'):
+            raise Unsupported(f'complex {name}')
+        raise AttributeError(name)
     def __bool__(s): return decide(z3.Or(s.re != 0, s.im != 0))
     @property
     def real(s): return SReal(s.re)
